@@ -191,9 +191,22 @@ def companion():
     return _COMPANION[0]
 
 
+def _palettes():
+    """the shipped palettes plus two a user might write: one whose colours coincide pairwise (edge = node, port border =
+    background), one with a single colour for everything -- the structure never depends on colours"""
+    from hugr.hugr.render import PALETTE, Palette
+
+    out = dict(PALETTE)
+    out["user-pairs"] = Palette(background="white", node="#888888", edge="#888888", dark="black", const="#888888",
+                                discard="#888888", node_border="white", port_border="white")
+    out["user-one-colour"] = Palette(*(["white"] * 8))
+    return out
+
+
 def check_render(ctx, h, case, stratum, configs):
+    PALETTE = _palettes()
     from hugr import tys
-    from hugr.hugr.render import PALETTE, RenderConfig
+    from hugr.hugr.render import RenderConfig
     from vf.oracles.observe import observe
 
     def bad(kind, locus, exp, obs):
@@ -513,6 +526,9 @@ def run(ctx):
             case["hist"] = (case.get("hist") or []) + gen_history_on(r, 10, max_steps=8)
         cfgs = allcfg if not ctx.quick or i % 8 == 0 else [allcfg[0], r.choice(allcfg[1:])]
         case["configs"] = [list(c) for c in cfgs] + ([[None, False]] if i % 3 == 0 else [])
+        if i % 4 == 1:
+            case["configs"].append([["user-pairs", "user-one-colour"][(i // 4) % 2], bool((i // 8) % 2)])
+            ctx.feat("feature:user-written-palette")
         if i % 10 == 5:
             case["store"] = True
         if i % 4 == 1:
